@@ -149,8 +149,9 @@ func (v *Version) UnmarshalText(text []byte) error {
 
 // UnmarshalFlag implements the flags.Unmarshaler interface.
 func (v *Version) UnmarshalFlag(in string) error {
-	if strings.HasPrefix(in, ">=") {
-		v.IsGTE = true
+	// Assign rather than only set: a later config file may replace ">=X" by an exact version.
+	v.IsGTE = strings.HasPrefix(in, ">=")
+	if v.IsGTE {
 		in = strings.TrimSpace(strings.TrimPrefix(in, ">="))
 	}
 	v.IsSet = true
